@@ -5,7 +5,11 @@
 (* The line keeps two FIFO queues of frames; the head of either queue can  *)
 (* be delivered, dropped, corrupted (delivered as GARBAGE), or duplicated  *)
 (* (delivered with a copy kept); "stall" is the sender's timer firing      *)
-(* while its frame still sits in the queue.  Faults are budgeted.          *)
+(* while its frame still sits in the queue.  A duplicated frame's copy may *)
+(* also be stalled on its own ("hold"): it reaches the receiver after up   *)
+(* to HoldSpan later frames of that direction (a longer delay would        *)
+(* outlive the 3-bit frame numbers - no ARQ protocol with a modulus of 8   *)
+(* survives that).  Faults are budgeted.                                   *)
 (* Host steps are fine-grained (receive, ACK timer, task resume, next      *)
 (* waiter) so that everything the event loop can interleave is explored.   *)
 (***************************************************************************)
@@ -16,15 +20,19 @@ CONSTANTS HPayloads,      \* number of host sends (ids 1..HPayloads)
           MaxFaults,      \* line-fault budget
           Cap,            \* line capacity per direction
           StartPairs,     \* initial counters, encoded hostTx * 8 + ncpTx (hostTx = ncpRx, ncpTx = hostRx)
-          MaxCancel       \* number of caller cancellations explored
+          MaxCancel,      \* number of caller cancellations explored
+          MaxHolds,       \* stalled duplicate copies explored (0: none)
+          HoldSpan        \* a stalled copy is overtaken by at most this many frames
 
-VARIABLES h, n, h2n, n2h, faults, hsub, nsub, hUp, nUp, res, canc
-vars == <<h, n, h2n, n2h, faults, hsub, nsub, hUp, nUp, res, canc>>
+VARIABLES h, n, h2n, n2h, faults, hsub, nsub, hUp, nUp, res, canc, held
+vars == <<h, n, h2n, n2h, faults, hsub, nsub, hUp, nUp, res, canc, held>>
+(* held: the stalled copies, [toH |-> <<frame>> or <<>>, toN |-> ..., ageH, ageN (frames that overtook the copy), used] *)
+NoHeld == [toH |-> <<>>, toN |-> <<>>, ageH |-> 0, ageN |-> 0, used |-> 0]
 
 Init == /\ \E p \in StartPairs : h = HInitAt(p \div 8, p % 8) /\ n = NInitAt(p % 8, p \div 8)
         /\ h2n = <<>> /\ n2h = <<>> /\ faults = 0
         /\ hsub = 0 /\ nsub = 0 /\ hUp = <<>> /\ nUp = <<>>
-        /\ res = [i \in 1 .. HPayloads |-> "none"] /\ canc = {}
+        /\ res = [i \in 1 .. HPayloads |-> "none"] /\ canc = {} /\ held = NoHeld
 
 Writes(out) == SelectSeq(out, LAMBDA o : o.o = "write")
 UpsData(out) == SelectSeq(out, LAMBDA o : o.o = "up_data")
@@ -50,29 +58,31 @@ NcpTake(r) == /\ n' = r.h
 
 HSubmit == /\ hsub < HPayloads /\ hsub' = hsub + 1
            /\ HostTake(SubmitFn(h, hsub + 1, hsub + 1))
-           /\ UNCHANGED <<n, n2h, faults, nsub, nUp, canc>>
+           /\ UNCHANGED <<n, n2h, faults, nsub, nUp, canc, held>>
 HTimer == /\ TimerEnabled(h) /\ HostTake(TimerFn(h))
-          /\ UNCHANGED <<n, n2h, faults, hsub, nsub, nUp, canc>>
+          /\ UNCHANGED <<n, n2h, faults, hsub, nsub, nUp, canc, held>>
 HResume == /\ ResumeEnabled(h) /\ HostTake(ResumeFn(h))
-           /\ UNCHANGED <<n, n2h, faults, hsub, nsub, nUp, canc>>
+           /\ UNCHANGED <<n, n2h, faults, hsub, nsub, nUp, canc, held>>
 HNext == /\ NextEnabled(h) /\ HostTake(NextFn(h))
-         /\ UNCHANGED <<n, n2h, faults, hsub, nsub, nUp, canc>>
+         /\ UNCHANGED <<n, n2h, faults, hsub, nsub, nUp, canc, held>>
 (* cancelling the caller of a send: the shielded task goes on, no link state changes *)
 HCancel(i) == /\ i \in 1 .. hsub /\ res[i] = "none" /\ i \notin canc /\ Cardinality(canc) < MaxCancel
               /\ canc' = canc \cup {i}
-              /\ UNCHANGED <<h, n, h2n, n2h, faults, hsub, nsub, hUp, nUp, res>>
+              /\ UNCHANGED <<h, n, h2n, n2h, faults, hsub, nsub, hUp, nUp, res, held>>
 
 NSubmit == /\ nsub < NPayloads /\ nsub' = nsub + 1
            /\ NcpTake(NSubmitFn(n, 101 + nsub))
-           /\ UNCHANGED <<h, h2n, faults, hsub, hUp, res, canc>>
+           /\ UNCHANGED <<h, h2n, faults, hsub, hUp, res, canc, held>>
 NTimer == /\ NTimerEnabled(n) /\ Len(n2h) + Len(n.win) <= Cap
           /\ NcpTake(NTimerFn(n))
-          /\ UNCHANGED <<h, h2n, faults, hsub, nsub, hUp, res, canc>>
+          /\ UNCHANGED <<h, h2n, faults, hsub, nsub, hUp, res, canc, held>>
 
 Garbage == [type |-> "GARBAGE"]
 (* the head of n2h reaches the host *)
 ToHost(fault) ==
     /\ n2h # <<>>
+    /\ (held.toH # <<>> => held.ageH < HoldSpan)                 \* a stalled copy is not overtaken by more than HoldSpan frames
+    /\ (fault = "hold" => held.toH = <<>> /\ held.used < MaxHolds)
     /\ fault # "deliver" => faults < MaxFaults
     /\ faults' = IF fault = "deliver" THEN faults ELSE faults + 1
     /\ LET f == Head(n2h) IN
@@ -80,9 +90,18 @@ ToHost(fault) ==
            [] fault = "deliver" -> /\ n2h' = Tail(n2h) /\ HostTake(RecvFn(h, f))
            [] fault = "corrupt" -> /\ n2h' = Tail(n2h) /\ HostTake(RecvFn(h, Garbage))
            [] fault = "dup"     -> /\ UNCHANGED n2h /\ HostTake(RecvFn(h, f))
+           [] fault = "hold"    -> /\ n2h' = Tail(n2h) /\ HostTake(RecvFn(h, f))
+    /\ held' = IF fault = "hold" THEN [held EXCEPT !.toH = <<Head(n2h)>>, !.ageH = 0, !.used = @ + 1]
+               ELSE IF held.toH # <<>> /\ fault # "dup" THEN [held EXCEPT !.ageH = @ + 1] ELSE held
     /\ UNCHANGED <<n, hsub, nsub, nUp, canc>>
+(* the stalled copy reaches the host *)
+ReleaseH == /\ held.toH # <<>> /\ HostTake(RecvFn(h, held.toH[1]))
+            /\ held' = [held EXCEPT !.toH = <<>>, !.ageH = 0]
+            /\ UNCHANGED <<n, n2h, faults, hsub, nsub, nUp, canc>>
 ToNcp(fault) ==
     /\ h2n # <<>>
+    /\ (held.toN # <<>> => held.ageN < HoldSpan)
+    /\ (fault = "hold" => held.toN = <<>> /\ held.used < MaxHolds)
     /\ fault # "deliver" => faults < MaxFaults
     /\ faults' = IF fault = "deliver" THEN faults ELSE faults + 1
     /\ LET f == Head(h2n) IN
@@ -90,7 +109,13 @@ ToNcp(fault) ==
            [] fault = "deliver" -> /\ h2n' = Tail(h2n) /\ NcpTake(NRecvFn(n, f))
            [] fault = "corrupt" -> /\ h2n' = Tail(h2n) /\ NcpTake(NRecvFn(n, Garbage))
            [] fault = "dup"     -> /\ UNCHANGED h2n /\ NcpTake(NRecvFn(n, f))
+           [] fault = "hold"    -> /\ h2n' = Tail(h2n) /\ NcpTake(NRecvFn(n, f))
+    /\ held' = IF fault = "hold" THEN [held EXCEPT !.toN = <<Head(h2n)>>, !.ageN = 0, !.used = @ + 1]
+               ELSE IF held.toN # <<>> /\ fault # "dup" THEN [held EXCEPT !.ageN = @ + 1] ELSE held
     /\ UNCHANGED <<h, hsub, nsub, hUp, res, canc>>
+ReleaseN == /\ held.toN # <<>> /\ NcpTake(NRecvFn(n, held.toN[1]))
+            /\ held' = [held EXCEPT !.toN = <<>>, !.ageN = 0]
+            /\ UNCHANGED <<h, h2n, faults, hsub, nsub, hUp, res, canc>>
 
 THDeliver == ToHost("deliver")
 THDrop    == ToHost("drop")
@@ -100,9 +125,12 @@ TNDeliver == ToNcp("deliver")
 TNDrop    == ToNcp("drop")
 TNCorrupt == ToNcp("corrupt")
 TNDup     == ToNcp("dup")
+THHold    == ToHost("hold")
+TNHold    == ToNcp("hold")
 HCancelAny == \E i \in 1 .. HPayloads : HCancel(i)
 Next == \/ HSubmit \/ HTimer \/ HResume \/ HNext \/ NSubmit \/ NTimer \/ HCancelAny
         \/ THDeliver \/ THDrop \/ THCorrupt \/ THDup \/ TNDeliver \/ TNDrop \/ TNCorrupt \/ TNDup
+        \/ THHold \/ TNHold \/ ReleaseH \/ ReleaseN
 Spec == Init /\ [][Next]_vars
 
 LineBound == Len(h2n) <= Cap /\ Len(n2h) <= Cap
@@ -124,5 +152,5 @@ AckedDelivered == \A p \in 101 .. (100 + nsub) :
                        /\ \A k \in 1 .. Len(n.q) : n.q[k] # p) =>
                       \E k \in 1 .. Len(hUp) : hUp[k] = p
 (* cancellation of a caller changes no link state *)
-CancelIsInvisible == [][\A i \in 1 .. HPayloads : HCancel(i) => UNCHANGED <<h, n, h2n, n2h, hUp, nUp>>]_vars
+CancelIsInvisible == [][\A i \in 1 .. HPayloads : HCancel(i) => UNCHANGED <<h, n, h2n, n2h, hUp, nUp, held>>]_vars
 =============================================================================
